@@ -268,6 +268,14 @@ module Mg = struct
     Stdlib.List.fold_left (fun (m, sids) t ->
       if t.[0] = 's' then (m, sids @ [reg_shared (int_of_string (String.sub t 1 (String.length t - 1)))])
       else (m lor (1 lsl (reg_pal (int_of_string t))), sids)) (0, []) toks
+  (* build <tid> <h|new> a <pal> <val> ... r <pal> ... *)
+  let parse_build rest =
+    let rec go mode asg rem = function
+      | [] -> (Stdlib.List.rev asg, Stdlib.List.rev rem)
+      | ("a" | "r" as m) :: t -> go m asg rem t
+      | p :: v :: t when mode = "a" -> go mode ((nat_of_int (reg_pal (int_of_string p)), z_of_int (int_of_string v)) :: asg) rem t
+      | p :: t -> go mode asg (nat_of_int (reg_pal (int_of_string p)) :: rem) t in
+    go "a" [] [] rest
   let cell_str = function None -> "*" | Some z -> string_of_int (int_of_coqz z)
   let place_str = function
     | PArch (a, c, sl) -> Printf.sprintf "a%d.%d.%d" (int_of_nat a) (int_of_nat c) (int_of_nat sl)
@@ -351,6 +359,13 @@ module Mg = struct
       | ("create" | "createarch") :: _ :: pals -> Stdlib.List.iter pal_tok pals
       | "cleararch" :: pals -> Stdlib.List.iter pal_tok pals
       | ("assign" | "assignid" | "remove" | "removeid") :: _ :: _ :: p :: _ -> ignore (reg_pal (int_of_string p))
+      | "build" :: _ :: _ :: rest ->
+          let rec go mode = function
+            | [] -> ()
+            | ("a" | "r" as m) :: t -> go m t
+            | p :: v :: t when mode = "a" -> ignore v; ignore (reg_pal (int_of_string p)); go mode t
+            | p :: t -> ignore (reg_pal (int_of_string p)); go mode t in
+          go "a" rest
       | ("getconst" | "getmut" | "set" | "has" | "markdirty") :: _ :: p :: _ -> ignore (reg_pal (int_of_string p))
       | ("assignshared" | "removeshared" | "getshared") :: _ :: p :: _ -> ignore (reg_shared (int_of_string p))
       | "dep" :: a :: pals -> ignore (reg_pal (int_of_string a)); Stdlib.List.iter pal_tok pals
@@ -437,6 +452,16 @@ module Mg = struct
          | "assignshared", [h; sp; v] -> apply (OAssignShared (parse_handle h, nat_of_int (reg_shared (int_of_string sp)), z_of_int (int_of_string v)))
          | "removeshared", [h; sp] -> apply (ORemoveShared (parse_handle h, nat_of_int (reg_shared (int_of_string sp))))
          | "clone", [h] -> apply (OClone (parse_handle h))
+         | "build", tid :: h :: rest ->
+             let (asg, rem) = parse_build rest in
+             if h = "new" then
+               (match step !st (OBuild (ni tid, None, asg, rem)) with
+                | Ok (s', RHandle nh) -> issued := !issued @ [nh]; finish s' (Printf.sprintf "#%d" (Stdlib.List.length !issued - 1))
+                | Ok (s', _) -> finish s' ""
+                | Err e -> Printf.printf "ERR %s\n" (err_name e); dead := true)
+             else (match step !st (OBuild (ni tid, Some (parse_handle h), asg, rem)) with
+                   | Ok (s', _) -> finish s' (hname (parse_handle h))
+                   | Err e -> Printf.printf "ERR %s\n" (err_name e); dead := true)
          | "getconst", [h; p] -> if hasval p then apply (OGetConst (parse_handle h, cid p)) else
              (match step !st (OGetConst (parse_handle h, cid p)) with
               | Ok (s', RCell (pr, _)) -> finish s' (if pr then "_" else "null") | _ -> dead := true)
@@ -579,6 +604,9 @@ module MgS = struct
          | "assignshared", [h; sp; v] -> apply (XoAssignShared (nk h, nat_of_int (Mg.reg_shared (int_of_string sp)), Mg.z_of_int (int_of_string v)))
          | "removeshared", [h; sp] -> apply (XoRemoveShared (nk h, nat_of_int (Mg.reg_shared (int_of_string sp))))
          | "clone", [h] -> apply (XoClone (nk h))
+         | "build", tid :: h :: rest ->
+             let (asg, rem) = Mg.parse_build rest in
+             apply (XoBuild (ni tid, (if h = "new" then None else Some (nk h)), asg, rem))
          | "set", [h; p; v] -> apply (XoSet (nk h, cid p, Mg.z_of_int (int_of_string v)))
          | "dep", a :: pals -> let (m, _) = Mg.parse_pals pals in apply (XoDep (cid a, n_of_int m))
          | _ -> print_endline "ERR unsupported-op"; dead := true)) lines
